@@ -8,6 +8,7 @@ CONSTANTS
   Depth = 3
   MaxObjs = 1
   Parents = {"none"}
+  Fmts = {"F1", "F2"}
   Variant = "restore_none_deletes"
 INVARIANT ExactlyOnce
 INVARIANT RightList
